@@ -188,9 +188,9 @@ func genFastAppendList(w *codewriter, rwctx *golang.ReadWriteContext, varname st
 }
 
 func genFastAppendMap(w *codewriter, rwctx *golang.ReadWriteContext, varname string, depth int) {
-	t := rwctx.Type
-	kt := t.KeyType
-	vt := t.ValueType
+	// NOTE: rwctx.Type may be a reference to a typedef, which carries no KeyType/ValueType: use the sub-contexts
+	kt := rwctx.KeyCtx.Type
+	vt := rwctx.ValCtx.Type
 	// map header
 	w.f("b = x.AppendMapBegin(b, %s, %s, len(%s))",
 		category2GopkgConsts[kt.Category], category2GopkgConsts[vt.Category], varname)
